@@ -16,4 +16,5 @@ CONSTANTS
   DeleteDropsPacked = TRUE
 INVARIANT TypeOK
 INVARIANT Transparent
+VIEW view
 CHECK_DEADLOCK FALSE
